@@ -39,7 +39,12 @@ impl ChannelParser {
                 };
 
                 // Check if this parameter is a Channel type
-                if let Some(message_type) = self.extract_channel_message_type(&pat_type.ty) {
+                // `tauri::ipc::Channel` without arguments is a channel of its default (raw) message type
+                let message_type = self.extract_channel_message_type(&pat_type.ty).or_else(|| {
+                    self.is_channel_without_message_type(&pat_type.ty)
+                        .then(|| "unknown".to_string())
+                });
+                if let Some(message_type) = message_type {
                     // Get line number from parameter span
                     let line_number = pat_type.ty.span().start().line;
 
@@ -89,6 +94,24 @@ impl ChannelParser {
             }
             _ => None,
         }
+    }
+
+    /// `tauri::ipc::Channel` written without a message type (`Channel<>` included). A bare
+    /// `Channel` is left alone: without arguments it is taken for a project type.
+    fn is_channel_without_message_type(&self, ty: &Type) -> bool {
+        let Type::Path(type_path) = ty else {
+            return false;
+        };
+        let Some(last_segment) = type_path.path.segments.last() else {
+            return false;
+        };
+        type_path.path.segments.len() >= 2
+            && self.is_channel_segment(last_segment, &type_path.path.segments)
+            && match &last_segment.arguments {
+                PathArguments::None => true,
+                PathArguments::AngleBracketed(arguments) => arguments.args.is_empty(),
+                PathArguments::Parenthesized(_) => false,
+            }
     }
 
     /// Check if a path segment represents a Channel type
